@@ -49,6 +49,7 @@ def generate(seed, mode):
     narrow_bias = w.random() < 0.5      # "narrow the class right after an instance declaration"
     want_super = mode.get('super', False)
     nops = w.randint(4, 25)
+    specarg_world = h64(seed, 'class-specifications-as-arguments') % 3 == 0
     ops = []
 
     def xs(kmax=2, allow_empty=False):
@@ -89,8 +90,16 @@ def generate(seed, mode):
         elif r < 0.61:
             ob = o.randrange(16)
             ops.append({'op': 'dprov', 'o': ob, 'xs': xs(3, True), 'k': k})
+            if specarg_world and o.random() < 0.35:
+                # a class specification among the arguments (`directlyProvides(ob, implementedBy(K))`, or the wrapper idiom
+                # `alsoProvides(wrapper, providedBy(context))`): the object then follows that class's declarations, until the
+                # next alsoProvides / noLongerProvides rebuilds the declaration from the interfaces the class has at that moment
+                ops[-1]['kspec'] = o.randrange(16)
+                ops[-1]['kpos'] = o.randrange(4)
+                if o.random() < 0.6:
+                    ops.append({'op': o.choice(['aprov', 'nprov']), 'o': ob, 'xs': xs(), 'x': o.randrange(nI), 'k': k})
             last_ob_decl = ob
-            last_xs = ops[-1]['xs']
+            last_xs = ops[-1].get('xs')
         elif r < 0.71:
             ob = o.randrange(16)
             ops.append({'op': 'aprov', 'o': ob, 'xs': xs(), 'k': k})
@@ -200,10 +209,63 @@ class DeclModel:
         m['may'] = []
         self.bump(c)
 
-    def directly(self, m, cls_hi, xs):
+    def flat(self, c):
+        """the interfaces iterating implementedBy(class c) yields: declared along the class chain -> (certainly, possibly)"""
+        m = self.classes[c]
+        musts, mays = list(m['must']), list(m['may'])
+        if not m['only']:
+            for b in m['bases']:
+                a, b_ = self.flat(b)
+                musts += a
+                mays += b_
+        return musts, mays
+
+    def ancestors(self, c):
+        s = {c}
+        for b in self.classes[c]['bases']:
+            s |= self.ancestors(b)
+        return s
+
+    def ob_lo(self, m):
+        s = self.L(m['cls']) | self.clos(m['must'])
+        for c in m.get('kmust', ()):
+            s |= self.L(c)
+        return s
+
+    def ob_hi(self, m):
+        s = self.U(m['cls']) | self.clos(m['must'] + m['may'])
+        for c in list(m.get('kmust', ())) + list(m.get('kmay', ())):
+            s |= self.U(c)
+        return s
+
+    def direct_hi(self, m):
+        s = self.clos(m['must'] + m['may'])
+        for c in list(m.get('kmust', ())) + list(m.get('kmay', ())):
+            s |= self.U(c)
+        return s
+
+    def expand_refs(self, m):
+        """alsoProvides / noLongerProvides rebuild the declaration from the *interfaces* of what was declared directly: a class
+        specification among them is replaced by the interfaces its class has at that moment"""
+        for c in m.get('kmust', ()):
+            a, b = self.flat(c)
+            m['must'] = m['must'] + [x for x in a if x not in m['must']]
+            m['may'] = m['may'] + [x for x in b if x not in m['may']]
+        for c in m.get('kmay', ()):
+            a, b = self.flat(c)
+            m['may'] = m['may'] + [x for x in a + b if x not in m['may']]
+        m['kmust'], m['kmay'] = [], []
+
+    def directly(self, m, cls_hi, xs, kspec=None):
         m['must'], m['may'] = self.classify(xs, cls_hi)
+        m['kmust'], m['kmay'] = [], []
+        if kspec is not None:
+            # certainly redundant when made (dropped, perhaps) if the class is the object's own class or one of its ancestors
+            (m['kmay'] if kspec in self.ancestors(m['cls']) else m['kmust']).append(kspec)
 
     def also(self, m, cls_hi, xs):
+        if m.get('kmust') or m.get('kmay'):
+            self.expand_refs(m)
         nm, ny = self.classify(m['must'] + list(xs), cls_hi)
         for y in m['may']:
             if y not in nm and y not in ny:
@@ -211,6 +273,8 @@ class DeclModel:
         m['must'], m['may'] = nm, ny
 
     def nolonger(self, m, cls_hi, x):
+        if m.get('kmust') or m.get('kmay'):
+            self.expand_refs(m)
         keep = lambda ys: [y for y in ys if x not in self.ext[y]]
         nm, ny = self.classify(keep(m['must']), cls_hi)
         for y in keep(m['may']):
@@ -464,8 +528,8 @@ def execute(program, ctx, mode):
                 continue
             m = M.obs[o]
             c = m['cls']
-            lo = M.L(c) | M.clos(m['must'])
-            hi = M.U(c) | M.clos(m['must'] + m['may'])
+            lo = M.ob_lo(m)
+            hi = M.ob_hi(m)
             got = as_set(providedBy(ob))
             ctx.state('ob', tuple(sorted(lo)), tuple(sorted(hi)), tuple(sorted(got)))
             if not (lo <= got <= hi):
@@ -479,7 +543,7 @@ def execute(program, ctx, mode):
                     ctx.violation('C01', 'I.providedBy-disagrees', 'C01|I.providedBy!=providedBy',
                                   {'ob': o, 'iface': i})
             dp = as_set(directlyProvidedBy(ob))
-            if not (dp <= M.clos(m['must'] + m['may'])):
+            if not (dp <= M.direct_hi(m)):
                 ctx.violation('C01', 'directlyProvidedBy-extra', 'C01|directlyProvidedBy|extra',
                               {'ob': o, 'got': sorted(dp)})
             if want_super:
@@ -582,8 +646,8 @@ def execute(program, ctx, mode):
                     if x >= len(obs) or obs[x] is None:
                         continue
                     m = M.obs[x]
-                    lo = M.L(m['cls']) | M.clos(m['must'])
-                    hi = M.U(m['cls']) | M.clos(m['must'] + m['may'])
+                    lo = M.ob_lo(m)
+                    hi = M.ob_hi(m)
                     got = bool(ifs[i].providedBy(obs[x]))
                 else:
                     lo, hi = M.L(x), M.U(x)
@@ -739,9 +803,15 @@ def execute(program, ctx, mode):
                 before_ids = {id(v) for v in list(zd.InstanceDeclarations.values())}
                 if name == 'dprov':
                     xs = [x % nI for x in op['xs']]
-                    M.directly(m, hi, xs)
-                    directlyProvides(obs[o], *[ifs[x] for x in xs])
-                    ctx.log(step, 'dprov', o, xs)
+                    args = [ifs[x] for x in xs]
+                    kspec = None
+                    if op.get('kspec') is not None and classes:
+                        kspec = op['kspec'] % len(classes)
+                        args.insert(op.get('kpos', 0) % (len(args) + 1), implementedBy(classes[kspec]))
+                        ctx.probe('class-specification-among-the-arguments-of-directlyProvides')
+                    M.directly(m, hi, xs, kspec)
+                    directlyProvides(obs[o], *args)
+                    ctx.log(step, 'dprov', o, xs, kspec)
                     ob_decl_probe(o, before_ids)
                 elif name == 'aprov':
                     xs = [x % nI for x in op['xs']]
@@ -761,6 +831,7 @@ def execute(program, ctx, mode):
                     ctx.log(step, 'nprov', o, x, raised)
                     lo_after = lo | M.clos(m['must'])
                     hi_after = hi | M.clos(m['must'] + m['may'])
+                    # (noLongerProvides has replaced a class specification among the direct declarations by interfaces)
                     if x in lo_after and not raised:
                         ctx.violation('C01', 'noLongerProvides-should-raise', 'C01|noLongerProvides|no-ValueError',
                                       {'ob': o, 'iface': x})
